@@ -216,6 +216,13 @@ def builtin_cases():
     c.append(("p :- atom_number('12',12).", "p", ["yes"], True))
     c.append(("p :- atom_number('12',13).", "p", [], True))
     c.append(("p :- atom_number('12',12.0).", "p", [], True))
+    c.append(("p(X) :- atom_number('2.0',X).", "p(X)", ["2.0"], True))       # the text of a float gives a float
+    c.append(("p :- atom_number('2.0',2).", "p", [], True))
+    c.append(("p :- atom_number('2.0',2.0).", "p", ["yes"], True))
+    c.append(("p(X) :- atom_number('9007199254740993',X).", "p(X)", ["9007199254740993"], True))    # 2**53 + 1, exactly
+    c.append(("p :- atom_number('9007199254740993',9007199254740992).", "p", [], True))
+    c.append(("p(X) :- atom_number('100000.0',X), float(X).", "p(X)", ["100000.0"], True))
+    c.append(("p(X) :- atom_number('7',X), integer(X).", "p(X)", ["7"], True))
     c.append(("p(X) :- atom_number(X,12).", "p(X)", ["12"], True))
     c.append(("p(X) :- atom_number(X,1.5).", "p(X)", ["1.5"], True))
     # partially instantiated terms: the builtin must pass its bindings on
